@@ -40,7 +40,8 @@ CONSTANTS Procs,          \* set of participants (integers)
           Debris,         \* set of [name, age]: files lying in the first directory's .kismet_temp initially
           FrontKind,          \* "plain" | "sharded" | "stack" (plain write cache W + one plain read-only cache R1, auto_sync on)
           PreRO,          \* stack: set of [key, val] held by the read-only cache R1
-          KeyShards       \* sharded: [key -> <<primary, secondary>>] shard indices (0/1; two shards); plain: unused
+          KeyShards,      \* sharded: [key -> <<primary, secondary>>] shard indices (0/1; two shards); plain: unused
+          FaultBudget     \* how many library system calls may fail with an injected error (C18)
 
 VARIABLES fs, clock, nino, pc, loc, aux, last
 
@@ -121,18 +122,20 @@ IdleLoc == [opi |-> 0, op |-> NoOp, now |-> 0, tmp |-> "", tino |-> "", tfd |-> 
             names |-> <<>>, idx |-> 0, ents |-> <<>>, evict |-> <<>>, back |-> <<>>, att |-> 1,
             cont |-> "", hit |-> "", wr |-> 0, fired |-> FALSE, stmode |-> 0, stat |-> <<>>, rr |-> <<>>, cap |-> Cap,
             b |-> Root, td |-> TDof(Root), mb |-> Root, mcont |-> "", mkq |-> <<>>, mki |-> 1, mkok |-> "", mkerr |-> "",
-            est |-> <<>>, probe |-> 1, h1 |-> Root, h2 |-> Root, maintained |-> FALSE, rem |-> 0, bound |-> TRUE, wcont |-> ""]
+            est |-> <<>>, probe |-> 1, h1 |-> Root, h2 |-> Root, maintained |-> FALSE, rem |-> 0, bound |-> TRUE, wcont |-> "",
+            ferr |-> ""]      \* the error a failed call left behind while its file / directory handle is being closed
 
+FaultAtSet == {-1}
 Init ==
     /\ fs = InitFS
     /\ clock = 10000
     /\ nino = Cardinality(Pre) + 1
     /\ pc = [p \in Procs |-> "idle"]
     /\ loc = [p \in Procs |-> [IdleLoc EXCEPT !.est = [b \in BaseDirs |-> 0]]]
-    /\ aux = [pubs |-> [x \in DOMAIN InitFS.inos |-> TRUE],
+    /\ \E fa \in FaultAtSet : aux = [faultat |-> fa, nsys |-> 0, pubs |-> [x \in DOMAIN InitFS.inos |-> TRUE],
               supplied |-> {<<e.key, e.val>> : e \in Pre} \cup (IF FrontKind = "stack" THEN {<<e.key, e.val>> : e \in PreRO} ELSE {}),
               dirty |-> {},
-              errs |-> {}, rets |-> <<>>, crashes |-> 0, advs |-> 0, crashed |-> {}]
+              errs |-> {}, rets |-> <<>>, crashes |-> 0, advs |-> 0, crashed |-> {}, faults |-> 0, faulted |-> {}, unlinkfailed |-> {}, fpoint |-> <<>>]
     /\ last = [e |-> "init"]
 
 \* chmod argument of set_read_only: the stat'ed mode without its write bits
@@ -145,7 +148,7 @@ SysLabels == {"g1", "g2", "g3", "t1", "t2", "t3", "t4",
               "c1", "c2", "c3", "c4", "c4u", "c5", "c6",
               "p1", "p1w", "p2", "p3", "p4", "p5", "p6", "q1", "q2", "q3", "q4", "p7",
               "d1", "d2", "d3",
-              "es", "ec", "ef1", "ef2", "ecp1", "ecp2", "ew", "efc", "efs", "ecl", "eop", "eg1", "eg2", "eg3", "ecl2", "esk", "eun"}
+              "es", "ec", "ef1", "ef2", "ecp1", "ecp2", "ew", "efc", "efs", "ecl", "eop", "eg1", "eg2", "eg3", "ecl2", "esk", "eun", "ecl3", "ecl4"}
 
 RO == <<"RDONLY", "CLOEXEC">>
 WO == <<"WRONLY", "CLOEXEC">>
@@ -217,6 +220,8 @@ NextCallL(p, l, lbl) ==
       [] lbl = "eg3" -> [call |-> "utimens", via |-> "fd", ino |-> l.fd, atk |-> "set", at |-> l.stat.mt, mtk |-> "omit", ph |-> "lib"]
       [] lbl = "ecl2" -> [call |-> "close", via |-> "fd", ino |-> l.tino, ph |-> "lib"]
       [] lbl = "eun" -> [call |-> "unlink", path |-> PIn(l.td, l.tmp), ph |-> "lib"]
+      [] lbl = "ecl3" -> [call |-> "close", via |-> "fd", ino |-> l.tino, ph |-> "lib"]      \* error path: the temp file's descriptor
+      [] lbl = "ecl4" -> [call |-> "close", via |-> "fd", ino |-> l.hit, ph |-> "lib"]       \* error path: the read-only hit being promoted
       [] lbl = "d1" -> [call |-> "stat", path |-> PIn(l.td, l.tmp), nofollow |-> TRUE, ph |-> "app"]
       [] lbl = "d2" -> [call |-> "unlink", path |-> PIn(l.td, l.tmp), ph |-> "app"]
       [] lbl = "d3" -> [call |-> "close", via |-> "fd", ino |-> l.tino, ph |-> "app"]
@@ -226,6 +231,8 @@ NextCall(p) == NextCallAt(p, pc[p])
 
 \* ---- results of a call in the model (trace mode takes them from the record) --
 IsAbsent(res) == res \in {"ENOENT", "ESTALE", "ENOTDIR"}
+\* the library's own notion of "the file is gone" (benign_error::is_absent_file_error: NotFound or ESTALE)
+AbsentErr(err) == err \in {"ENOENT", "ESTALE"}
 
 Ret(c0, newino) ==
     LET rs == Pred(fs, c0, FALSE)
@@ -265,7 +272,8 @@ GoNow(l, lbl) == [pc |-> lbl, loc |-> [l EXCEPT !.now = clock], ret |-> <<>>, ti
 Done(l, ok, res, hit) == [pc |-> "ret", loc |-> l, ret |-> <<[ok |-> ok, res |-> res, hit |-> hit]>>, tick |-> FALSE]
 
 Min2(a, b) == IF a < b THEN a ELSE b
-Fail(l) == Go([l EXCEPT !.cont = "err"], IF l.op.api = "ensure" THEN (IF l.tmp # "" THEN "eun" ELSE "fail") ELSE IF l.tfd THEN "d1" ELSE "fail")
+Fail(l) == Go([l EXCEPT !.cont = "err"], IF l.op.api = "ensure" THEN (IF l.tmp # "" THEN "eun" ELSE IF l.wcont = "esk" THEN "ecl4" ELSE "fail")
+                                         ELSE IF l.tfd THEN "d1" ELSE "fail")
 \* create_dir_all(chain[1]) then continue at `ok` (or fail)
 MkdirAll(l, chain, okl) == Go([l EXCEPT !.mkq = chain, !.mki = 1, !.mkok = okl], "k1")
 StartPublish(l) == GoNow(l, "p1")
@@ -290,11 +298,18 @@ FinishWrite(l) ==
          ELSE Go(l2, "z1")                      \* maintain this shard if its estimate says it is far over capacity
 
 EntryOf(name, st) == [id |-> name, rank |-> st.mt, acc |-> TLe(st.mt, st.at)]
+\* the listing is complete: plan the Second Chance update and start applying it
+PlanStep(l) ==
+    LET pl == Plan(l.ents, l.cap)
+        ev == [i \in 1..Len(pl.evict) |-> pl.evict[i].id]
+        bk == [i \in 1..Len(pl.back) |-> pl.back[i].id]
+        l2 == [l EXCEPT !.evict = ev, !.back = bk, !.idx = 1, !.rem = Len(l.ents) - Len(ev)]
+    IN IF ev # <<>> THEN Go(l2, "m7") ELSE IF bk # <<>> THEN GoNow(l2, "m8a") ELSE Go(l2, "m9")
 
 AfterL(p, l, lbl, c) ==
     LET ok == c.res = "ok" api == l.op.api IN
     CASE lbl = "g1" -> IF ok THEN Go([l EXCEPT !.fd = c.ino, !.hit = c.ino], "g2")
-                       ELSE IF IsAbsent(c.res) THEN
+                       ELSE IF AbsentErr(c.res) THEN
                             (IF l.probe = 1 /\ l.h2 # l.b THEN Go([l EXCEPT !.probe = 2, !.b = l.h2], "g1")
                              ELSE IF api = "ensure" THEN Go([l EXCEPT !.b = Root, !.td = TDof(Root), !.wcont = "eg1", !.hit = ""], "a1")
                              ELSE Done(l, TRUE, "none", ""))
@@ -304,26 +319,31 @@ AfterL(p, l, lbl, c) ==
       [] lbl = "g3" -> IF api = "ensure" THEN Go(l, "es") ELSE Done(l, TRUE, "some", l.hit)
       [] lbl = "t1" -> IF ok THEN Go([l EXCEPT !.fd = c.ino], "t3")
                        ELSE IF WriteFallback THEN Go(l, "t2")
-                       ELSE IF IsAbsent(c.res) THEN
+                       ELSE IF AbsentErr(c.res) THEN
                             (IF l.probe = 1 /\ l.h2 # l.b THEN GoNow([l EXCEPT !.probe = 2, !.b = l.h2], "t1") ELSE Done(l, TRUE, "false", ""))
                        ELSE Done(l, FALSE, c.res, "")
       [] lbl = "t2" -> IF ok THEN Go([l EXCEPT !.fd = c.ino], "t3")
-                       ELSE IF IsAbsent(c.res) THEN
+                       ELSE IF AbsentErr(c.res) THEN
                             (IF l.probe = 1 /\ l.h2 # l.b THEN GoNow([l EXCEPT !.probe = 2, !.b = l.h2], "t1") ELSE Done(l, TRUE, "false", ""))
                        ELSE Done(l, FALSE, c.res, "")
-      [] lbl = "t3" -> IF ok THEN Go(l, "t4") ELSE Done(l, FALSE, c.res, "")
-      [] lbl = "t4" -> Done([l EXCEPT !.fd = ""], TRUE, "true", "")
+      [] lbl = "t3" -> IF ok THEN Go(l, "t4") ELSE Go([l EXCEPT !.ferr = c.res], "t4")     \* the handle is closed either way
+      [] lbl = "t4" -> LET l2 == [l EXCEPT !.fd = "", !.ferr = ""] IN
+                       IF l.ferr = "" THEN Done(l2, TRUE, "true", "")
+                       ELSE IF AbsentErr(l.ferr) THEN
+                            (IF l.probe = 1 /\ l.h2 # l.b THEN GoNow([l2 EXCEPT !.probe = 2, !.b = l.h2], "t1") ELSE Done(l2, TRUE, "false", ""))
+                       ELSE Done(l2, FALSE, l.ferr, "")
       \* temp_dir()
       [] lbl = "a1" -> LET nxt == IF api = "ensure" THEN "ec" ELSE "a3" IN
                        IF ok /\ c.st.kind = "dir" THEN Go(l, nxt) ELSE MkdirAll(l, Chain(l.td), nxt)
       \* create_dir_all: first attempt at level mki
       [] lbl = "k1" -> IF ok THEN (IF l.mki = 1 THEN Go(l, l.mkok) ELSE Go([l EXCEPT !.mki = @ - 1], "k2"))
-                       ELSE IF IsAbsent(c.res) /\ l.mki < Len(l.mkq) THEN Go([l EXCEPT !.mki = @ + 1], "k1")
-                       ELSE IF IsAbsent(c.res) THEN Fail(l)
-                       ELSE Go(l, "k1s")
+                       ELSE IF c.res = "ENOENT" /\ l.mki < Len(l.mkq) THEN Go([l EXCEPT !.mki = @ + 1], "k1")
+                       ELSE IF c.res = "EEXIST" THEN Go(l, "k1s")       \* std: only "already exists" is worth an is_dir() check
+                       ELSE Fail(l)
       [] lbl = "k1s" -> IF ok /\ c.st.kind = "dir" THEN (IF l.mki = 1 THEN Go(l, l.mkok) ELSE Go([l EXCEPT !.mki = @ - 1], "k2")) ELSE Fail(l)
       \* second attempt (after the parent was created)
-      [] lbl = "k2" -> IF ok THEN (IF l.mki = 1 THEN Go(l, l.mkok) ELSE Go([l EXCEPT !.mki = @ - 1], "k2")) ELSE Go(l, "k2s")
+      [] lbl = "k2" -> IF ok THEN (IF l.mki = 1 THEN Go(l, l.mkok) ELSE Go([l EXCEPT !.mki = @ - 1], "k2"))
+                       ELSE IF c.res = "EEXIST" THEN Go(l, "k2s") ELSE Fail(l)
       [] lbl = "k2s" -> IF ok /\ c.st.kind = "dir" THEN (IF l.mki = 1 THEN Go(l, l.mkok) ELSE Go([l EXCEPT !.mki = @ - 1], "k2")) ELSE Fail(l)
       [] lbl = "a3" -> IF ok THEN Go([l EXCEPT !.tmp = c.path.n, !.tino = c.ino, !.tfd = TRUE, !.wr = 0], "a4")
                        ELSE Done(l, FALSE, c.res, "")
@@ -336,51 +356,54 @@ AfterL(p, l, lbl, c) ==
                        ELSE Fail(l)
       \* prune
       [] lbl = "m1" -> IF ok THEN Go([l EXCEPT !.dfd = l.mb], "m2")
-                       ELSE IF IsAbsent(c.res) THEN AfterMaint(l) ELSE Fail(l)
-      [] lbl = "m2" -> Go(l, "m3")
-      [] lbl = "m3" -> \* dot-prefixed names are skipped without a stat: they are never cache entries
+                       ELSE IF AbsentErr(c.res) THEN AfterMaint(l) ELSE Fail(l)
+      [] lbl = "m2" -> IF ok THEN Go(l, "m3") ELSE Go([l EXCEPT !.ferr = c.res], "m9")      \* opendir's fstat failed: close, report
+      [] lbl = "m3" -> \* a failed getdents is one skipped item and the end of the iteration (std::fs::ReadDir)
+                       IF ~ok THEN PlanStep([l EXCEPT !.ents = <<>>, !.names = <<>>]) ELSE
+                       \* dot-prefixed names are skipped without a stat: they are never cache entries
                        LET ns == SelectSeq(c.names, LAMBDA n : FirstChar(n) # ".") IN
                        IF ns = <<>> THEN Go([l EXCEPT !.ents = <<>>, !.names = <<>>], "m5")
                        ELSE Go([l EXCEPT !.names = ns, !.idx = 1, !.ents = <<>>], "m4")
       [] lbl = "m4" ->
             LET l2 == IF ok /\ c.st.kind # "dir" THEN [l EXCEPT !.ents = Append(@, EntryOf(l.names[l.idx], c.st))] ELSE l IN
-            IF ~ok /\ ~IsAbsent(c.res) THEN Go([l EXCEPT !.cont = "err"], "m9")
+            IF ~ok /\ ~AbsentErr(c.res) THEN Go([l EXCEPT !.ferr = c.res], "m9")
             ELSE IF l.idx < Len(l.names) THEN Go([l2 EXCEPT !.idx = @ + 1], "m4") ELSE Go(l2, "m5")
-      [] lbl = "m5" ->
-            LET pl == Plan(l.ents, l.cap)
-                ev == [i \in 1..Len(pl.evict) |-> pl.evict[i].id]
-                bk == [i \in 1..Len(pl.back) |-> pl.back[i].id]
-                l2 == [l EXCEPT !.evict = ev, !.back = bk, !.idx = 1, !.rem = Len(l.ents) - Len(ev)]
-            IN IF ev # <<>> THEN Go(l2, "m7") ELSE IF bk # <<>> THEN GoNow(l2, "m8a") ELSE Go(l2, "m9")
+      [] lbl = "m5" -> PlanStep(l)     \* (a failed getdents ends the iteration like the end of the directory does)
       [] lbl = "m7" ->
-            IF ~ok /\ ~IsAbsent(c.res) THEN Go([l EXCEPT !.cont = "err"], "m9")
+            IF ~ok /\ ~AbsentErr(c.res) THEN Go([l EXCEPT !.ferr = c.res], "m9")
             ELSE IF l.idx < Len(l.evict) THEN Go([l EXCEPT !.idx = @ + 1], "m7")
             ELSE IF l.back # <<>> THEN GoNow([l EXCEPT !.idx = 1], "m8a") ELSE Go(l, "m9")
       [] lbl = "m8a" -> IF ok THEN Go([l EXCEPT !.fd = c.ino], "m8b")
                         ELSE IF WriteFallback THEN Go(l, "m8w")
-                        ELSE IF IsAbsent(c.res) THEN (IF l.idx < Len(l.back) THEN GoNow([l EXCEPT !.idx = @ + 1], "m8a") ELSE Go(l, "m9"))
-                        ELSE Go([l EXCEPT !.cont = "err"], "m9")
+                        ELSE IF AbsentErr(c.res) THEN (IF l.idx < Len(l.back) THEN GoNow([l EXCEPT !.idx = @ + 1], "m8a") ELSE Go(l, "m9"))
+                        ELSE Go([l EXCEPT !.ferr = c.res], "m9")
       [] lbl = "m8w" -> IF ok THEN Go([l EXCEPT !.fd = c.ino], "m8b")
-                        ELSE IF IsAbsent(c.res) THEN (IF l.idx < Len(l.back) THEN GoNow([l EXCEPT !.idx = @ + 1], "m8a") ELSE Go(l, "m9"))
-                        ELSE Go([l EXCEPT !.cont = "err"], "m9")
-      [] lbl = "m8b" -> Go(l, "m8c")
-      [] lbl = "m8c" -> IF l.idx < Len(l.back) THEN GoNow([l EXCEPT !.idx = @ + 1, !.fd = ""], "m8a") ELSE Go([l EXCEPT !.fd = ""], "m9")
-      [] lbl = "m9" -> IF l.cont = "err" THEN Fail([l EXCEPT !.dfd = ""]) ELSE Go([l EXCEPT !.dfd = ""], "c1")
+                        ELSE IF AbsentErr(c.res) THEN (IF l.idx < Len(l.back) THEN GoNow([l EXCEPT !.idx = @ + 1], "m8a") ELSE Go(l, "m9"))
+                        ELSE Go([l EXCEPT !.ferr = c.res], "m9")
+      [] lbl = "m8b" -> IF ok THEN Go(l, "m8c") ELSE Go([l EXCEPT !.ferr = c.res], "m8c")
+      [] lbl = "m8c" -> IF l.ferr # "" /\ ~AbsentErr(l.ferr) THEN Go([l EXCEPT !.fd = ""], "m9")      \* a failed re-stamp ends the maintenance
+                        ELSE IF l.idx < Len(l.back) THEN GoNow([l EXCEPT !.idx = @ + 1, !.fd = "", !.ferr = ""], "m8a")
+                        ELSE Go([l EXCEPT !.fd = "", !.ferr = ""], "m9")
+      \* the directory stream is closed; an error that means "the directory is gone" ends the maintenance quietly (no temp cleanup)
+      [] lbl = "m9" -> LET l2 == [l EXCEPT !.dfd = "", !.ferr = ""] IN
+                       IF l.ferr = "" THEN Go(l2, "c1") ELSE IF AbsentErr(l.ferr) THEN AfterMaint(l2) ELSE Fail(l2)
       \* temp cleanup
       [] lbl = "c1" -> IF ok THEN Go([l EXCEPT !.dfd = TDof(l.mb)], "c2")
-                       ELSE IF IsAbsent(c.res) THEN AfterMaint(l) ELSE Fail(l)
-      [] lbl = "c2" -> Go(l, "c3")
-      [] lbl = "c3" -> IF c.names = <<>> THEN Go(l, "c5") ELSE Go([l EXCEPT !.names = c.names, !.idx = 1], "c4")
+                       ELSE IF AbsentErr(c.res) THEN AfterMaint(l) ELSE Fail(l)
+      [] lbl = "c2" -> IF ok THEN Go(l, "c3") ELSE Go([l EXCEPT !.ferr = c.res], "c6")
+      [] lbl = "c3" -> IF ~ok THEN Go(l, "c6")          \* (the failed item is skipped and the iteration is over)
+                       ELSE IF c.names = <<>> THEN Go(l, "c5") ELSE Go([l EXCEPT !.names = c.names, !.idx = 1], "c4")
       [] lbl = "c4" -> IF ok THEN Go([l EXCEPT !.stat = c.st], "c4d")    \* is it older than the limit? (local decision)
                        ELSE IF l.idx < Len(l.names) THEN Go([l EXCEPT !.idx = @ + 1], "c4") ELSE Go(l, "c5")
       [] lbl = "c4u" -> IF l.idx < Len(l.names) THEN Go([l EXCEPT !.idx = @ + 1], "c4") ELSE Go(l, "c5")
       [] lbl = "c5" -> Go(l, "c6")
-      [] lbl = "c6" -> AfterMaint([l EXCEPT !.dfd = ""])
+      [] lbl = "c6" -> LET l2 == [l EXCEPT !.dfd = "", !.ferr = ""] IN
+                       IF l.ferr = "" \/ AbsentErr(l.ferr) THEN AfterMaint(l2) ELSE Fail(l2)
       \* publish
       [] lbl = "p1" -> IF ok THEN Go([l EXCEPT !.fd = c.ino], "p2") ELSE IF WriteFallback THEN Go(l, "p1w") ELSE PublishFailed(l)
       [] lbl = "p1w" -> IF ok THEN Go([l EXCEPT !.fd = c.ino], "p2") ELSE PublishFailed(l)
-      [] lbl = "p2" -> Go(l, "p3")
-      [] lbl = "p3" -> Go([l EXCEPT !.fd = ""], "p4")
+      [] lbl = "p2" -> IF ok THEN Go(l, "p3") ELSE Go([l EXCEPT !.ferr = c.res], "p3")
+      [] lbl = "p3" -> IF l.ferr = "" THEN Go([l EXCEPT !.fd = ""], "p4") ELSE PublishFailed([l EXCEPT !.fd = "", !.ferr = ""])
       [] lbl = "p4" -> IF ok THEN Go([l EXCEPT !.stmode = c.st.mode], "p5") ELSE PublishFailed(l)
       [] lbl = "p5" -> IF ok THEN Go(l, "p6") ELSE PublishFailed(l)
       [] lbl = "p6" -> IF ok THEN Go(l, "p7")
@@ -388,16 +411,18 @@ AfterL(p, l, lbl, c) ==
                        ELSE PublishFailed(l)
       [] lbl = "q1" -> IF ok THEN Go([l EXCEPT !.fd = c.ino], "q3")
                        ELSE IF WriteFallback THEN Go(l, "q2")
-                       ELSE IF IsAbsent(c.res) THEN Go(l, "p7") ELSE PublishFailed(l)
+                       ELSE IF AbsentErr(c.res) THEN Go(l, "p7") ELSE PublishFailed(l)
       [] lbl = "q2" -> IF ok THEN Go([l EXCEPT !.fd = c.ino], "q3")
-                       ELSE IF IsAbsent(c.res) THEN Go(l, "p7") ELSE PublishFailed(l)
-      [] lbl = "q3" -> IF ok THEN Go(l, "q4") ELSE PublishFailed(l)
-      [] lbl = "q4" -> Go([l EXCEPT !.fd = ""], "p7")
-      [] lbl = "p7" -> IF ok \/ IsAbsent(c.res) THEN FinishWrite(l) ELSE PublishFailed(l)
+                       ELSE IF AbsentErr(c.res) THEN Go(l, "p7") ELSE PublishFailed(l)
+      [] lbl = "q3" -> IF ok THEN Go(l, "q4") ELSE Go([l EXCEPT !.ferr = c.res], "q4")
+      [] lbl = "q4" -> LET l2 == [l EXCEPT !.fd = "", !.ferr = ""] IN
+                       IF l.ferr = "" \/ AbsentErr(l.ferr) THEN Go(l2, "p7") ELSE PublishFailed(l2)
+      [] lbl = "p7" -> IF ok \/ AbsentErr(c.res) THEN FinishWrite(l) ELSE PublishFailed(l)
       \* ensure: rewind the hit; a hit in the write cache is returned, a hit in the read-only cache is promoted
-      [] lbl = "es" -> IF l.b = Root THEN Done(l, TRUE, "some", l.hit)
+      [] lbl = "es" -> IF ~ok THEN Go([l EXCEPT !.cont = "err"], "ecl4")
+                       ELSE IF l.b = Root THEN Done(l, TRUE, "some", l.hit)
                        ELSE Go([l EXCEPT !.b = Root, !.td = TDof(Root), !.wcont = "esk"], "a1")
-      [] lbl = "ec" -> IF ok THEN Go([l EXCEPT !.tmp = c.path.n, !.tino = c.ino, !.wr = 0], IF l.wcont = "esk" THEN "ef1" ELSE "ew")
+      [] lbl = "ec" -> IF ok THEN Go([l EXCEPT !.tmp = c.path.n, !.tino = c.ino, !.wr = 0, !.tfd = TRUE], IF l.wcont = "esk" THEN "ef1" ELSE "ew")
                        ELSE Fail(l)
       [] lbl = "ef1" -> Go(l, "ef2")
       [] lbl = "ef2" -> Go(l, "ecp1")
@@ -407,16 +432,19 @@ AfterL(p, l, lbl, c) ==
                        ELSE IF l.wr + 1 < l.op.chunks THEN Go([l EXCEPT !.wr = @ + 1], "ew") ELSE Go([l EXCEPT !.wr = @ + 1], "efc")
       [] lbl = "efc" -> IF ok THEN Go(l, "efs") ELSE Fail(l)
       [] lbl = "efs" -> IF ok THEN Go(l, "ecl") ELSE Fail(l)              \* a failed flush is never followed by publication
-      [] lbl = "ecl" -> IF ~ok THEN Fail(l)
-                        ELSE IF l.wcont = "esk" THEN Go([l EXCEPT !.att = 1, !.maintained = FALSE], "s1")
-                        ELSE Go(l, "eop")
+      [] lbl = "ecl" -> IF ~ok THEN Fail([l EXCEPT !.tfd = FALSE])           \* (a failed close still releases the descriptor)
+                        ELSE IF l.wcont = "esk" THEN Go([l EXCEPT !.att = 1, !.maintained = FALSE, !.tfd = FALSE], "s1")
+                        ELSE Go([l EXCEPT !.tfd = FALSE], "eop")
       [] lbl = "eop" -> IF ok THEN Go([l EXCEPT !.att = 1, !.maintained = FALSE, !.hit = c.ino], "s1") ELSE Fail(l)
-      [] lbl = "esk" -> Go([l EXCEPT !.cont = "ok"], "eun")
+      [] lbl = "esk" -> Go([l EXCEPT !.cont = IF ok THEN "ok" ELSE "err"], "eun")
       [] lbl = "eg1" -> IF ok THEN Go([l EXCEPT !.fd = c.ino], "eg2") ELSE Go([l EXCEPT !.cont = "ok"], "eun")   \* evicted at once: keep the pre-opened handle
       [] lbl = "eg2" -> IF ok /\ TLt(c.st.at, c.st.mt) THEN Go([l EXCEPT !.stat = c.st], "eg3") ELSE Go(l, "ecl2")
       [] lbl = "eg3" -> Go(l, "ecl2")
       [] lbl = "ecl2" -> Go([l EXCEPT !.hit = l.fd, !.cont = "ok"], "eun")
-      [] lbl = "eun" -> IF l.cont = "ok" THEN Done(l, TRUE, "some", l.hit) ELSE Done(l, FALSE, "err", "")
+      [] lbl = "eun" -> IF l.cont = "ok" THEN Done(l, TRUE, "some", l.hit)
+                        ELSE IF l.tfd THEN Go(l, "ecl3") ELSE IF l.wcont = "esk" THEN Go(l, "ecl4") ELSE Done(l, FALSE, "err", "")
+      [] lbl = "ecl3" -> IF l.wcont = "esk" THEN Go([l EXCEPT !.tfd = FALSE], "ecl4") ELSE Done([l EXCEPT !.tfd = FALSE], FALSE, "err", "")
+      [] lbl = "ecl4" -> Done(l, FALSE, "err", "")
       \* application epilogue
       [] lbl = "d1" -> Go(l, "d2")
       [] lbl = "d2" -> Go(l, "d3")
@@ -504,7 +532,7 @@ Internal(p) ==
            nx == IF pc[p] = "pub" THEN StartPublish(l) ELSE Done(l, FALSE, "err", "")
        IN /\ pc' = [pc EXCEPT ![p] = nx.pc] /\ loc' = [loc EXCEPT ![p] = nx.loc]
           /\ aux' = [aux EXCEPT !.rets = IF nx.ret # <<>> THEN (p :> (nx.ret[1] @@ [api |-> Op(p).api, key |-> Op(p).key])) @@ @ ELSE @,
-                                !.errs = IF nx.ret # <<>> /\ ~nx.ret[1].ok THEN @ \cup {<<p, l.opi, nx.ret[1].res>>} ELSE @]
+                                !.errs = IF nx.ret # <<>> /\ ~nx.ret[1].ok /\ <<p, l.opi>> \notin aux.faulted THEN @ \cup {<<p, l.opi, nx.ret[1].res>>} ELSE @]
           /\ clock' = IF nx.tick THEN clock + 1 ELSE clock
     /\ last' = [e |-> "tau", p |-> p]
     /\ UNCHANGED <<fs, nino>>
@@ -520,19 +548,46 @@ Sys(p) ==
           /\ nino' = IF created THEN nino + 1 ELSE nino
           /\ pc' = [pc EXCEPT ![p] = nx.pc]
           /\ loc' = [loc EXCEPT ![p] = nx.loc]
-          /\ aux' = [aux EXCEPT !.pubs = NewPubsK(m, @),
+          /\ aux' = [aux EXCEPT !.nsys = @ + 1, !.pubs = NewPubsK(m, @),
                                 !.dirty = IF c.res = "ok" /\ c.call \in {"write", "copy"} THEN @ \cup {c.ino}
                                           ELSE IF c.res = "ok" /\ c.call = "fsync" THEN @ \ {c.ino} ELSE @,
                                 !.rets = IF nx.ret # <<>> THEN (p :> (nx.ret[1] @@ [api |-> Op(p).api, key |-> Op(p).key])) @@ @ ELSE @,
-                                !.errs = IF nx.ret # <<>> /\ ~nx.ret[1].ok THEN @ \cup {<<p, loc[p].opi, nx.ret[1].res>>} ELSE @]
+                                !.errs = IF nx.ret # <<>> /\ ~nx.ret[1].ok /\ <<p, loc[p].opi>> \notin aux.faulted
+                                        THEN @ \cup {<<p, loc[p].opi, nx.ret[1].res>>} ELSE @]
           /\ last' = c @@ [e |-> "sys", p |-> p, api |-> Op(p).api, pcl |-> pc[p]]
           /\ clock' = IF nx.tick THEN clock + 1 ELSE clock
+
+\* C18: one library system call fails with an injected error (the call has no effect); the control flow continues from
+\* the failed call exactly as the code does (AfterL is total over results)
+FaultErrnos(call) == IF call = "close" THEN {}
+                     ELSE IF call \in {"open", "stat", "unlink", "rename", "link", "utimens"} THEN {"EIO", "ESTALE"}
+                     ELSE {"EIO"}
+FailSys(p) ==
+    /\ Alive(p) /\ pc[p] \in SysLabels /\ aux.faults < FaultBudget
+    /\ aux.faultat \in {-1, aux.nsys}
+    /\ LET c0 == NextCall(p) IN
+       /\ c0.ph \in {"lib", "cb"} /\ pc[p] \notin {"ef1", "ef2"}
+       /\ \E er \in FaultErrnos(c0.call) :
+            LET c == c0 @@ [res |-> er, inj |-> TRUE]
+                nx == After(p, c)
+            IN /\ pc' = [pc EXCEPT ![p] = nx.pc]
+               /\ loc' = [loc EXCEPT ![p] = nx.loc]
+               /\ aux' = [aux EXCEPT !.nsys = @ + 1, !.faults = @ + 1, !.faulted = @ \cup {<<p, loc[p].opi>>},
+                                     !.unlinkfailed = IF c0.call = "unlink" THEN @ \cup {c0.path.n} ELSE @,
+                                     !.fpoint = <<p, loc[p].opi, pc[p], loc[p].idx, er>>,
+                                     !.rets = IF nx.ret # <<>> THEN (p :> (nx.ret[1] @@ [api |-> Op(p).api, key |-> Op(p).key])) @@ @ ELSE @]
+               /\ last' = c @@ [e |-> "sys", p |-> p, api |-> Op(p).api, pcl |-> pc[p]]
+               /\ clock' = IF nx.tick THEN clock + 1 ELSE clock
+    /\ UNCHANGED <<fs, nino>>
 
 Return(p) ==
     /\ Alive(p) /\ pc[p] = "ret"
     /\ pc' = [pc EXCEPT ![p] = "idle"]
     /\ last' = [e |-> "ret", p |-> p]
-    /\ UNCHANGED <<fs, clock, nino, loc, aux>>
+    /\ LET r == IF p \in DOMAIN aux.rets THEN aux.rets[p] ELSE [ok |-> FALSE] IN
+       fs' = IF r.ok /\ r.api \in {"get", "ensure"} /\ r.res = "some" /\ r.hit \in DOMAIN fs.inos /\ TLt(fs.inos[r.hit].at, fs.inos[r.hit].mt)
+             THEN [fs EXCEPT !.inos[r.hit].at = Tm(clock)] ELSE fs
+    /\ UNCHANGED <<clock, nino, loc, aux>>
 
 Crash(p) ==
     /\ Alive(p) /\ pc[p] \notin {"idle", "ret"} /\ aux.crashes < CrashBudget
@@ -549,7 +604,7 @@ AdvDelete ==
     /\ UNCHANGED <<clock, nino, pc, loc>>
 
 Next ==
-    \/ \E p \in Procs : Begin(p) \/ Trigger(p) \/ AgeCheck(p) \/ Internal(p) \/ Sys(p) \/ Return(p) \/ Crash(p)
+    \/ \E p \in Procs : Begin(p) \/ Trigger(p) \/ AgeCheck(p) \/ Internal(p) \/ Sys(p) \/ FailSys(p) \/ Return(p) \/ Crash(p)
     \/ AdvDelete
 
 Spec == Init /\ [][Next]_vars
@@ -610,12 +665,28 @@ StepRegister == [][FrontKind = "plain" => \A k \in AllKeys : LET a == Abs(fs, k)
 StepGetLin == [][last'.e = "sys" /\ last'.api = "get" /\ last'.pcl = "g1" /\ last'.res = "ok" =>
                     fs.inos[last'.ino].c.val = AbsIn(fs, DirOf(last'.path), last'.path.n)]_vars
 
+\* C18 at design level (FaultBudget > 0).  No temporary file made for a finished operation of a live participant is left
+\* behind, unless the failing call was the very unlink that should have removed it:
+TempNamesOf(p) == {TmpNameL(p, [opi |-> i]) : i \in 1..Len(Prog[p])}
+InvNoLeak == \A p \in Procs : Alive(p) /\ pc[p] = "idle" =>
+                \A b \in BaseDirs : TDof(b) \in DOMAIN fs.ents =>
+                    \A n \in DOMAIN fs.ents[TDof(b)] : n \in TempNamesOf(p) => n \in aux.unlinkfailed
+\* an operation that reports success has achieved its effect (single participant: nobody can undo it before the return);
+\* a failure that the code may swallow (a re-stamp or a removal that fails "absent") does not excuse a missing effect
+InvFaultReported == Cardinality(Procs) = 1 => \A p \in Procs : pc[p] = "ret" /\ p \in DOMAIN aux.rets /\ aux.rets[p].ok =>
+                        LET o == Op(p) IN
+                        /\ o.api = "set" => Abs(fs, o.key) = o.val
+                        /\ o.api \in {"put", "ensure"} => Abs(fs, o.key) # "none"
+\* errors are returned only by operations that were hit by a fault (C05 and C18 together)
+InvErrOnlyIfFaulted == aux.errs = {}
+
 \* Transition coverage (binding R-lite): the set of (label, call, result) edges of the control flow that are reachable in
 \* a configuration, accumulated in a TLC register (run with -workers 1) and printed by the post-condition; the driver
 \* compares it with the edges real executions took (TraceKismet prints the same triples).
 CoverAC == (last'.e = "sys" => TLCSet(7, TLCGet(7) \cup {<<last'.pcl, last'.call, last'.res>>}))
 CoverInit == TLCSet(7, {})
 
+ViewF == <<fs, pc, loc, aux.pubs, aux.errs, aux.crashed, aux.advs, aux.rets, aux.dirty, aux.faults, aux.faulted, aux.fpoint>>
 \* observation variables are kept out of the state space
-View == <<fs, pc, loc, aux.pubs, aux.errs, aux.crashed, aux.advs, aux.rets, aux.dirty>>
+View == <<fs, pc, loc, aux.pubs, aux.errs, aux.crashed, aux.advs, aux.rets, aux.dirty, aux.faults, aux.faulted>>
 =============================================================================
